@@ -19,7 +19,6 @@
 # IN THE SOFTWARE.
 import json
 import os
-import shutil
 import subprocess
 import sys
 from collections.abc import Mapping
@@ -252,14 +251,16 @@ class _FilePersistence(_ConcretePersistence):
 
         try:
             if current_runs:
-                with NamedTemporaryFile("w", delete=False) as target:
+                # create the temporary file next to the data file, so that it can
+                # replace the data file atomically, also if ReBench is killed
+                target_dir = os.path.dirname(os.path.abspath(self._data_filename))
+                with NamedTemporaryFile("w", delete=False, dir=target_dir) as target:
                     # pylint: disable-next=unspecified-encoding
                     with open(self._data_filename, "r") as data_file:
                         self._process_lines(data_file, current_runs, target)
                 # the temporary file needs to be closed, i.e., completely written,
-                # before it is moved, which may copy it to another file system
-                os.unlink(self._data_filename)
-                shutil.move(target.name, self._data_filename)
+                # before it replaces the data file
+                os.replace(target.name, self._data_filename)
             else:
                 # pylint: disable-next=unspecified-encoding
                 with open(self._data_filename, "r") as data_file:
